@@ -103,6 +103,16 @@ def build_jobs(t_, sd):
                 for v in ([6, 8] if not thorough else [5, 8, 10]):
                     jobs.append({"id": "lit-%s:%s:%s@v%d" % (which, T.T_str(t), lv, v), "family": "literal:" + which, "type": to_json(t), "lens": lv,
                                  "version": v, "backend": "main" if v < 8 else "sub", "literal": to_json(lit), "fn": "encode"})
+    # integer leaves given as Int(<literal>) expressions at the width boundaries: 2^N - 1 must encode, 2^N and 2^N + 1 must make the program fail
+    for bits in (8, 16, 32):
+        for delta, nm in ((-1, "max"), (0, "pow"), (1, "pow1")):
+            val = (1 << bits) + delta
+            for t in (("uint", bits), G.tup(("uint", bits), G.U64), ("sarray", ("uint", bits), 2)):
+                lit = val if t[0] == "uint" else ([val, 7] if t[0] == "tuple" else [1, val])
+                for v in ((6, 8) if not thorough else (5, 6, 8, 10)):
+                    for be in ("main", "sub"):
+                        jobs.append({"id": "intexpr-%s:%s@v%d/%s" % (nm, T.T_str(t), v, be), "family": "literal:int-expr", "type": to_json(t), "lens": [0], "version": v,
+                                     "backend": be, "literal": to_json(lit), "int_exprs": True, "fn": "encode"})
     # long literal strings / byte arrays around the one-byte boundary of the length prefix
     for n in (254, 255, 256, 300, 1000):
         for t in (G.STR, G.DB, G.tup(G.U8, G.STR)):
